@@ -372,10 +372,12 @@ def h_ne16_linear_in_input_tiles(H, kind):
     fn = _ne16_fn(kind)
     s, cin, cout, dims, w = _ne16_spec(H, kind, '', torch.tensor(1.0))
     s['w_precision'] = torch.tensor(H.concretize(H.scalar(w)))
-    s['output_shape'] = (1, 4, 1, 1)
+    kin = 'in_features' if kind == 'linear' else 'in_channels'
+    if kind != 'linear':
+        s['output_shape'] = (1, 4, 1, 1)
     s0, s16 = dict(s), dict(s)
-    s0['in_channels'] = torch.tensor(0.0)
-    s16['in_channels'] = torch.tensor(16.0)
+    s0[kin] = torch.tensor(0.0)
+    s16[kin] = torch.tensor(16.0)
     f, f0, f16 = H.scalar(fn(s)), H.scalar(fn(s0)), H.scalar(fn(s16))
     n_in = H.scalar(((cin - 1) // 16) + 1)
     H.ensure('ne16:latency-affine-in-input-tiles', H.eq(f, H.add(f0, H.mul(n_in, H.sub(f16, f0)))))
@@ -388,14 +390,16 @@ def h_ne16_cout_at_fixed_input(H, kind, part):
     fn = _ne16_fn(kind)
     s, cin, cout, dims, w = _ne16_spec(H, kind, 'A', torch.tensor(1.0))
     s['w_precision'] = torch.tensor(H.concretize(H.scalar(w)))
-    s['output_shape'] = (1, 4, 1, 1)
+    kin, kout = ('in_features', 'out_features') if kind == 'linear' else ('in_channels', 'out_channels')
+    if kind != 'linear':
+        s['output_shape'] = (1, 4, 1, 1)
     hi = H.tensor('coutB', ())
     H.assume(H.ge(hi, cout))
 
     def at(c_in, c_out):
         t = dict(s)
-        t['in_channels'] = torch.tensor(c_in)
-        t['out_channels'] = c_out
+        t[kin] = torch.tensor(c_in)
+        t[kout] = c_out
         return H.scalar(fn(t))
     if part == 'base':
         a, b = at(0.0, cout), at(0.0, hi)
@@ -453,17 +457,17 @@ def h_ne16_rejects(H, kind):
 HARNESSES = HARNESSES + [
     dict(name='ne16', fn='h_ne16', property='C16', functions=['plinio/cost/ne16_latency.py::<Ne16PerfModel, Ne16PerfModel_generalized and the three registered models>'],
          quick=[dict(kind=k, vary=v) for k in ('3x3', '1x1', 'dw', 'linear')
-                for v in (('cin', 'cout', 'bits') + (('ho', 'wo') if k != 'linear' else ())) if not (v == 'cout' and k != 'linear')],
+                for v in (('cin', 'cout', 'bits') + (('ho', 'wo') if k != 'linear' else ())) if v != 'cout'],
          thorough=[dict(kind=k, vary=v) for k in ('3x3', '1x1', 'dw', 'linear')
-                   for v in (('cin', 'cout', 'bits') + (('ho', 'wo') if k != 'linear' else ())) if not (v == 'cout' and k != 'linear')], timeout=180),
+                   for v in (('cin', 'cout', 'bits') + (('ho', 'wo') if k != 'linear' else ())) if v != 'cout'], timeout=180),
     dict(name='ne16-factorisation', fn='h_ne16_factorisation', property='C16', functions=['plinio/cost/ne16_latency.py::Ne16PerfModel.latency'],
          quick=[dict(kind=k) for k in ('3x3', '1x1')], thorough=[dict(kind=k) for k in ('3x3', '1x1', 'dw')], timeout=90),
     dict(name='ne16-skeleton', fn='h_ne16_skeleton', property='C16', functions=[], quick=[{}], thorough=[{}], crosscheck=0),
     dict(name='ne16-affine-in-input-tiles', fn='h_ne16_linear_in_input_tiles', property='C16', functions=['plinio/cost/ne16_latency.py::Ne16PerfModel.latency'],
-         quick=[dict(kind=k) for k in ('3x3', '1x1')], thorough=[dict(kind=k) for k in ('3x3', '1x1')], timeout=90),
+         quick=[dict(kind=k) for k in ('3x3', '1x1', 'linear')], thorough=[dict(kind=k) for k in ('3x3', '1x1', 'linear')], timeout=90),
     dict(name='ne16-cout-at-fixed-input', fn='h_ne16_cout_at_fixed_input', property='C16', functions=['plinio/cost/ne16_latency.py::Ne16PerfModel.latency'],
-         quick=[dict(kind=k, part=p) for k in ('3x3', '1x1') for p in ('base', 'slope')], thorough=[dict(kind=k, part=p) for k in ('3x3', '1x1') for p in ('base', 'slope')],
-         timeout=90),
+         quick=[dict(kind=k, part=p) for k in ('3x3', '1x1', 'linear') for p in ('base', 'slope')],
+         thorough=[dict(kind=k, part=p) for k in ('3x3', '1x1', 'linear') for p in ('base', 'slope')], timeout=90),
     dict(name='ne16-skeleton2', fn='h_ne16_skeleton2', property='C16', functions=[], quick=[{}], thorough=[{}], crosscheck=0),
     dict(name='ne16-rejects', fn='h_ne16_rejects', property='C16', functions=['plinio/cost/ne16_latency.py::_ne16_latency_conv2d_generic'],
          quick=[dict(kind=k) for k in ('3x3', '1x1', 'dw', 'linear')], thorough=[dict(kind=k) for k in ('3x3', '1x1', 'dw', 'linear')]),
